@@ -39,11 +39,14 @@ RealIdx(P) == [i \in 1..Len(P.if) |->
                   recs |-> [j \in 1..Len(P.if[i].recs) |->
                      [off |-> P.if[i].recs[j].off, size |-> P.if[i].recs[j].size, del |-> P.if[i].recs[j].del, b |-> P.if[i].recs[j].b,
                       ents |-> [x \in 1..Len(P.if[i].recs[j].ents) |-> [p |-> P.if[i].recs[j].ents[x].p, off |-> P.if[i].recs[j].ents[x].off, sz |-> P.if[i].recs[j].ents[x].sz]]]]]]
+\* (records the reader found only at a position some index entry names - the bytes of a record subsumed by a merged span -
+\* are not part of the file as a sequence of records)
+Walked(recs) == SelectSeq(recs, LAMBDA r : ~r.direct)
 RealPri(P) == [i \in 1..Len(P.pf) |->
                  [n |-> P.pf[i].n,
-                  recs |-> [j \in 1..Len(P.pf[i].recs) |->
-                              [off |-> P.pf[i].recs[j].off, size |-> P.pf[i].recs[j].size, del |-> P.pf[i].recs[j].del,
-                               dig |-> P.pf[i].recs[j].dig, vlen |-> P.pf[i].recs[j].vlen]]]]
+                  recs |-> [j \in 1..Len(Walked(P.pf[i].recs)) |->
+                              LET r == Walked(P.pf[i].recs)[j] IN
+                              [off |-> r.off, size |-> r.size, del |-> r.del, dig |-> r.dig, vlen |-> r.vlen]]]]
 ModelBk == {<<b, bk[b]>> : b \in {x \in Buckets : bk[x] # 0}}
 RealBk(e) == {<<e.bk[i][1], e.bk[i][2]>> : i \in 1..Len(e.bk)}
 ModelFl == [i \in 1..Len(flfile) |-> <<flfile[i].off, flfile[i].sz>>]
@@ -77,21 +80,21 @@ TNext ==
               /\ bk' = [b \in Buckets |-> 0] /\ inext' = [b \in Buckets |-> NoList]
               /\ ifiles' = << <<>> >> /\ ifirst' = 0 /\ ilen' = 0
               /\ pnext' = <<>> /\ pfiles' = << <<>> >> /\ pfirst' = 0 /\ plen' = 0 /\ recFile' = 0 /\ recPos' = 0
-              /\ flpool' = <<>> /\ flfile' = <<>> /\ flgc' = [has |-> FALSE, l |-> <<>>] /\ visited' = {} /\ hist' = <<>>
+              /\ flpool' = <<>> /\ flfile' = <<>> /\ flgc' = [has |-> FALSE, l |-> <<>>] /\ gcmem' = NoMem /\ hist' = <<>>
               /\ dur' = [k \in Keys |-> -1] /\ since' = [k \in Keys |-> {}] /\ ok' = AllOK
          [] e.e = "put" -> CPut(KeyOfNo(e.k), e.vlen)
          [] e.e = "rem" -> CRemove(KeyOfNo(e.k))
          [] e.e = "flush" ->
               /\ hist' = hist /\ dur' = kv /\ since' = [k \in Keys |-> {}] /\ ok' = AllOK
               /\ IF pnext = <<>> /\ Dirty = {}
-                 THEN UNCHANGED <<kv, bk, inext, ifiles, ifirst, ilen, pnext, pfiles, pfirst, plen, recFile, recPos, flpool, flfile, flgc, visited>>
+                 THEN UNCHANGED <<kv, bk, inext, ifiles, ifirst, ilen, pnext, pfiles, pfirst, plen, recFile, recPos, flpool, flfile, flgc, gcmem>>
                  ELSE LET rn    == RealNew(e.st)
                           new   == [i \in 1..Len(rn) |-> rn[i].b]
                           order == IF new \in Perms(Dirty) THEN new ELSE CHOOSE o \in Perms(Dirty) : TRUE
                       IN FlushWith(order)
               /\ Flag(e, Drift(e))
          [] e.e = "prigc" -> CPriGC(e.lowUse, e.deadline) /\ Flag(e, Drift(e))
-         [] e.e = "idxgc" -> CIdxGC(e.scanFree) /\ Flag(e, Drift(e))
+         [] e.e = "idxgc" -> CIdxGC(e.scanFree, e.deadline) /\ Flag(e, Drift(e))
          \* Close + reopen (same bit size): the commit's flush order is bound from the projection, the recovery path from the
          \* event; the model's files, table (snapshot or rescan) and freelist are compared with the reopened store's
          [] e.e = "reopen" /\ e.oerr = "" /\ "st" \in DOMAIN e ->
